@@ -152,8 +152,10 @@ def run_case(case):
 
     def prog(rank):
         comm = MPI.COMM_WORLD
+        if case["seed"] % 3 == 1:
+            comm = comm.Split(0, -rank)          # the same processes numbered in the opposite order to the world communicator
         sim = simrun.Sim(comm, c, nprocs, layout='v_parallel', save=False)
-        out = {"coords": list(sim.remapper.mpiCoords), "norms": {}, "minmax": [], "collector": None}
+        out = {"coords": list(sim.remapper.mpiCoords), "norms": {}, "minmax": [], "collector": None, "comm_rank": comm.Get_rank()}
         f, phi = sim.f, sim.phi
         # --- norms of f in its three layouts, random field and the field equal to one
         for fld_name, FLD in (("random", F), ("one", ONE4)):
@@ -206,7 +208,7 @@ def run_case(case):
         wit["traceback"] = (w.tracebacks[err[0]] or "")[-2500:]
         return result(VIOL, cls=[base + "/exception"], events=ev, key="C17:exception:%s" % type(err[1]).__name__,
                       what="rank %d raised %r on process grid %r" % (err[0], err[1], nprocs), witness=wit)
-    res = w.results
+    res = sorted(w.results, key=lambda r_: r_["comm_rank"])          # indexed by the rank in the communicator the grids live on
     ev.update({"norms_compared": 0, "minmax_compared": 0, "collector_rows_compared": 0, "replicated_layout_checks": 0, "unit_field_checks": 0})
     cls = set()
     ser = serial_values(F, PHI, eta)
